@@ -407,6 +407,65 @@ pub fn check(ctx: &mut Ctx) {
             F::Disagree(d) => ctx.case("model", &key, "fdis", serde_json::json!({"what": d, "case": info})),
         }
     }
+    // ---- percentiles over groups large enough for the sketch to compress (its documented rank
+    // tolerance is 0.1 % of the group's rows): values are a permutation of 1..N, so a value's rank is
+    // the value itself; a small group rides along and must stay exact
+    let np = ctx.budget(16, 400);
+    for _ in 0..np {
+        let mut r = ctx.rng.fork();
+        let n = *r.pick(&[600usize, 1000, 2000, 5000, 10007]);
+        let mult = *r.pick(&[1usize, 7919, 3571, 104729]);
+        let mut input = String::new();
+        for i in 0..n {
+            let v = (i * mult) % n + 1; // a permutation when gcd(mult, n) = 1; otherwise values repeat (fine)
+            input.push_str(&format!("{{\"k\":\"big\",\"v\":{}}}\n", v));
+            if i % (n / 20) == 0 {
+                input.push_str(&format!("{{\"k\":\"small\",\"v\":{}}}\n", i / (n / 20) + 1));
+            }
+        }
+        let q = "* | json | count as c, p1(v) as q1, p25(v) as q25, p50(v) as q50, p75(v) as q75, p90(v) as q90, p99(v) as q99 by k";
+        let key = format!("pct-large:{}:{}", n, mult);
+        let res = crate::imp::run(q, input.as_bytes(), "json", 60);
+        let info = serde_json::json!({"query": q, "rows_in_big_group": n, "values": format!("(i*{}) mod {} + 1", mult, n)});
+        let rows = match canon::parse(String::from_utf8_lossy(&res.stdout).trim_end()) {
+            Ok(J::Arr(rows)) => rows,
+            _ => vec![],
+        };
+        let mut sorted: Vec<f64> = (0..n).map(|i| ((i * mult) % n + 1) as f64).collect();
+        sorted.sort_by(|a, b| a.partial_cmp(b).unwrap());
+        let mut problem: Option<String> = None;
+        let big = rows.iter().find(|row| matches!(row, J::Obj(kvs) if kvs.iter().any(|kv| kv.0 == "k" && kv.1 == J::Str("big".into()))));
+        match big {
+            Some(J::Obj(kvs)) => {
+                for (name, p) in [("q1", 1.0), ("q25", 25.0), ("q50", 50.0), ("q75", 75.0), ("q90", 90.0), ("q99", 99.0)] {
+                    let got = kvs.iter().find(|kv| kv.0 == name).and_then(|kv| as_f64(&kv.1));
+                    match got {
+                        None => problem = Some(format!("{} missing", name)),
+                        Some(v) => {
+                            let lo = sorted.iter().position(|x| *x == v);
+                            let hi = sorted.iter().rposition(|x| *x == v);
+                            let target = p / 100.0 * n as f64;
+                            // twice the documented tolerance, plus one rank
+                            let tol = 0.002 * n as f64 + 1.5;
+                            match (lo, hi) {
+                                (Some(lo), Some(hi)) if (lo as f64 + 1.0) - tol <= target && target <= (hi as f64 + 1.0) + tol => {}
+                                (Some(lo), _) => problem = Some(format!("{} = {} has rank {} of {}, {:.1} ranks from the requested {:.1} (tolerance {:.1})", name, v, lo + 1, n, (lo as f64 + 1.0 - target).abs(), target, tol)),
+                                _ => problem = Some(format!("{} = {} is not one of the observed values", name, v)),
+                            }
+                        }
+                    }
+                }
+                if kvs.iter().find(|kv| kv.0 == "c").map(|kv| kv.1.clone()) != Some(J::Int(n as i64)) {
+                    problem = Some("count of the big group is wrong".into());
+                }
+            }
+            _ => problem = Some("group `big` missing".into()),
+        }
+        match problem {
+            Some(w) => ctx.case("pct-large", &key, "viol", serde_json::json!({"class": "", "what": w, "got": String::from_utf8_lossy(&res.stdout).chars().take(600).collect::<String>(), "case": info})),
+            None => ctx.case("pct-large", &key, "pass", info),
+        }
+    }
     // two functions of the same kind in one stage (README uses this): each must have its own column
     if ctx.shard == 0 {
         let input = b"{\"a\":1,\"b\":2}\n{\"a\":1,\"b\":3}\n{\"a\":2,\"b\":2}\n".to_vec();
